@@ -526,6 +526,14 @@ func sysuStream(g *hx.Gen, id int) hx.Case {
 	}
 	if g.Chance(35) {
 		rr := hx.RuleSpec{Path: "/m/*", Dest: "http://r0.test/fb/$1", Internal: g.Chance(30)}
+		if g.Chance(12) {
+			// a retry rule that is switched off, or answers some methods only: an accepted configuration (seeded change C19-m8:
+			// the skip path of Rules.Match on the ad-hoc rule list of the retry branch)
+			f := false
+			rr.Enabled = &f
+		} else if g.Chance(14) {
+			rr.Methods = [][]string{{"GET"}, {"POST", "PUT"}, {"GET", "HEAD", "DELETE"}}[g.Intn(3)]
+		}
 		if g.Chance(20) {
 			rr2 := hx.RuleSpec{Path: "/*", Dest: "http://r1.test/$1"}
 			rr.Retry = &rr2
